@@ -18,6 +18,8 @@ pub enum Delivery {
     Buffered(usize, Schedule),
     FromStr,
     FromPath,
+    /// from_path over a named pipe (a path whose metadata reports size 0 but which delivers the bytes)
+    FromFifo,
 }
 
 fn describe(d: &Delivery) -> String {
@@ -26,6 +28,7 @@ fn describe(d: &Delivery) -> String {
         Delivery::Buffered(c, s) => format!("BufReader::with_capacity({c}, ..) over a reader with chunks {:?}{}", &s.chunks[..s.chunks.len().min(12)], if s.interrupts.is_empty() { String::new() } else { format!(", Interrupted at calls {:?}", s.interrupts) }),
         Delivery::FromStr => "from_str".into(),
         Delivery::FromPath => "from_path".into(),
+        Delivery::FromFifo => "from_path over a named pipe (mkfifo)".into(),
     }
 }
 
@@ -60,16 +63,79 @@ pub fn deliver(bytes: &[u8], d: &Delivery) -> Result<Delivered, String> {
             }
             Ok(Delivered { map, chunks: 1, boundary_inside_line: false })
         }
+        Delivery::FromFifo => {
+            let map = deliver_fifo(bytes)?;
+            Ok(Delivered { map, chunks: 2, boundary_inside_line: false })
+        }
         Delivery::FromPath => {
             let dir = crate::engine::verif_dir().join("harness/target/tmp").join(format!("c08-{}", std::process::id()));
             std::fs::create_dir_all(&dir).map_err(|e| format!("tmp dir: {e}"))?;
             let p = dir.join(format!("{:?}-{:016x}.osu", std::thread::current().id(), hash64(bytes)).replace(['(', ')'], ""));
             std::fs::write(&p, bytes).map_err(|e| format!("tmp write: {e}"))?;
             let r = rosu_map::from_path::<Beatmap>(&p).map_err(|e| format!("from_path error {e}"));
+            // the inherent constructors are two more entry points for the same bytes
+            let r2 = Beatmap::from_path(&p).map_err(|e| format!("Beatmap::from_path error {e}"));
             let _ = std::fs::remove_file(&p);
-            Ok(Delivered { map: r?, chunks: 1, boundary_inside_line: false })
+            let (map, map2) = (r?, r2?);
+            if map2 != map {
+                return Err(format!("Beatmap::from_path decodes differently from rosu_map::from_path: {}", crate::oracle::cmp::full_diff(&map2, &map).unwrap_or_default()).chars().take(900).collect());
+            }
+            let map3 = Beatmap::from_bytes(bytes).map_err(|e| format!("Beatmap::from_bytes error {e}"))?;
+            if map3 != map {
+                return Err(format!("Beatmap::from_bytes decodes differently from rosu_map::from_path: {}", crate::oracle::cmp::full_diff(&map3, &map).unwrap_or_default()).chars().take(900).collect());
+            }
+            Ok(Delivered { map, chunks: 1, boundary_inside_line: false })
         }
     }
+}
+
+/// from_path on a FIFO: a writer thread feeds the bytes while the decoder reads the path
+fn deliver_fifo(bytes: &[u8]) -> Result<Beatmap, String> {
+    let dir = crate::engine::verif_dir().join("harness/target/tmp").join(format!("c08-{}", std::process::id()));
+    std::fs::create_dir_all(&dir).map_err(|e| format!("tmp dir: {e}"))?;
+    let p = dir.join(format!("{:?}-{:016x}.fifo", std::thread::current().id(), hash64(bytes)).replace(['(', ')'], ""));
+    let _ = std::fs::remove_file(&p);
+    let st = std::process::Command::new("mkfifo").arg(&p).status().map_err(|e| format!("mkfifo: {e}"))?;
+    if !st.success() {
+        return Err("SKIP: mkfifo failed".into());
+    }
+    let data = bytes.to_vec();
+    let wp = p.clone();
+    let writer = std::thread::spawn(move || {
+        use std::io::Write;
+        if let Ok(mut f) = std::fs::OpenOptions::new().write(true).open(&wp) {
+            let _ = f.write_all(&data);
+        }
+    });
+    let r = rosu_map::from_path::<Beatmap>(&p).map_err(|e| format!("from_path (fifo) error {e}"));
+    // normally the writer is done (the reader saw end of file). If the reader gave up early the writer may still
+    // be blocked in open() or write(): give it a moment, then open the pipe without blocking and drain it
+    for _ in 0..200 {
+        if writer.is_finished() {
+            break;
+        }
+        std::thread::sleep(std::time::Duration::from_millis(5));
+    }
+    if !writer.is_finished() {
+        use std::io::Read;
+        use std::os::unix::fs::OpenOptionsExt;
+        const O_NONBLOCK: i32 = 0o4000;
+        if let Ok(mut f) = std::fs::OpenOptions::new().read(true).custom_flags(O_NONBLOCK).open(&p) {
+            let mut sink = [0u8; 65536];
+            for _ in 0..2000 {
+                if writer.is_finished() {
+                    break;
+                }
+                match f.read(&mut sink) {
+                    Ok(0) | Err(_) => std::thread::sleep(std::time::Duration::from_millis(2)),
+                    Ok(_) => {}
+                }
+            }
+        }
+    }
+    let _ = writer.join();
+    let _ = std::fs::remove_file(&p);
+    r
 }
 
 fn check_one(bytes: &[u8], reference: &Beatmap, d: &Delivery) -> Result<Delivered, String> {
@@ -145,17 +211,17 @@ fn line_count(bytes: &[u8]) -> usize {
 }
 
 pub fn run(ctx: &mut Ctx) {
-    ctx.rule = "cases are (file, delivery): bundled files (large ones cut to 400 lines in the quick tier) and generated documents in the four encodings x {every fixed chunk size 1..64 through a native BufRead, BufReader::with_capacity(1..16) over a chunked Read, random variable chunk schedules (first chunk of 1 or 2 bytes forced in a third of them), random placements of Interrupted on fill_buf / read, from_str for UTF-8, from_path through a temporary file}. The scripted reader honours the BufRead contract (repeated fill_buf without consume returns the same slice). Oracle: every delivery yields a Beatmap equal (==, plus requested slider lengths) to from_bytes's. Non-trivial = file of >= 3 lines delivered in >= 2 chunks with a boundary inside a line; distinct by hash(file, schedule).".into();
+    ctx.rule = "cases are (file, delivery): bundled files (large ones cut to 400 lines in the quick tier) and generated documents in the four encodings x {every fixed chunk size 1..64 through a native BufRead, BufReader::with_capacity(1..16) over a chunked Read, random variable chunk schedules (first chunk of 1 or 2 bytes forced in a third of them), random placements of Interrupted on fill_buf / read, from_str and str::parse for UTF-8, from_path / Beatmap::from_path through a temporary file and through a named pipe}. The scripted reader honours the BufRead contract (repeated fill_buf without consume returns the same slice). Oracle: every delivery yields a Beatmap equal (==, plus requested slider lengths) to from_bytes's. Non-trivial = file of >= 3 lines delivered in >= 2 chunks with a boundary inside a line; distinct by hash(file, schedule).".into();
     crate::props::replay_regress_generic(ctx, replay);
     let quick = ctx.tier == Tier::Quick;
     let srcs = sources(quick);
     // exhaustive: files x encodings x fixed chunk sizes 1..64 (native) and BufReader capacities 1..16
-    let per_file = 4 * (64 + 16 + 2);
-    ctx.enumerate("bundled files x 4 encodings x {fixed chunk size 1..64, BufReader capacity 1..16, from_str, from_path}", srcs.len() as u64 * per_file, |i, st| {
+    let per_file = 4 * (64 + 16 + 3);
+    ctx.enumerate("bundled files x 4 encodings x {fixed chunk size 1..64, BufReader capacity 1..16, from_str, from_path on a file, from_path on a named pipe}", srcs.len() as u64 * per_file, |i, st| {
         let (name, text) = &srcs[(i / per_file) as usize];
         let j = i % per_file;
-        let enc = ENCS[(j / 82) as usize];
-        let k = (j % 82) as usize;
+        let enc = ENCS[(j / 83) as usize];
+        let k = (j % 83) as usize;
         let bytes = encode_text(text, enc);
         // the large maps are only delivered with a few sizes per encoding in the quick tier
         if bytes.len() > 100_000 && quick && !(k < 4 || k == 64 || k == 65 || k >= 80) {
@@ -170,12 +236,18 @@ pub fn run(ctx: &mut Ctx) {
                 return Ok(());
             }
             Delivery::FromStr
-        } else {
+        } else if k == 81 {
             Delivery::FromPath
+        } else {
+            Delivery::FromFifo
         };
         st.eval();
         let reference = rosu_map::from_bytes::<Beatmap>(&bytes).map_err(|e| Fail::new(format!("from_bytes error {e}"), "osu", bytes.clone()))?;
         match check_one(&bytes, &reference, &d) {
+            Err(m) if m.starts_with("SKIP:") => {
+                st.exclude("named pipe not available");
+                Ok(())
+            }
             Ok(got) => {
                 if line_count(&bytes) >= 3 && got.chunks >= 2 && got.boundary_inside_line {
                     st.nontrivial_distinct();
